@@ -976,7 +976,7 @@ class PathTok(str):
     """A symbolic pathlib.Path: a string token with joinpath/parent/mkdir modelled by hooks."""
 
 
-def eval_cli_main(ctx, found=True, flag_backend=None, flag_no_color=None, config=None, env=None, decline=False, verbose="info"):
+def eval_cli_main(ctx, found=True, flag_backend=None, flag_no_color=None, config=None, env=None, decline=False, verbose="info", load_hook=None, extra_options=None):
     """Evaluate gwf.cli:main on symbolic inputs; every external effect is a recorded event.
 
     Returns (result dict, None) or (None, reason)."""
@@ -1007,9 +1007,16 @@ def eval_cli_main(ctx, found=True, flag_backend=None, flag_no_color=None, config
         res["mkdir_kw"].append(dict(k))
         events.append(("mkdir", str(recv)))
 
-    def h_load(path):
+    def h_load(path, *more, **kmore):
         res["config_path"] = str(path)
         events.append(("config.load", str(path)))
+        if load_hook is not None:
+            return load_hook(path)
+        if more or kmore:
+            # the loader takes more than the path (e.g. values to layer on top): the real classmethod is evaluated, with the file's content supplied
+            ci__ = idx.cls("gwf.conf:FileConfig")
+            ip__ = PureInterp(ctx, hooks={"builtins.open": lambda p_, *a, **k: Obj("file", path=str(p_), mode="r"), "json.load": lambda f_, *a, **k: dict(config)})
+            return ip__.call(idx.method(ci__, "load"), (path,) + tuple(more), kmore, self_obj=ci__)
         # the object FileConfig.load returns: an instance of the repository's class around ChainMap(<file content>, CONFIG_DEFAULTS)
         ci_ = idx.cls("gwf.conf:FileConfig")
         fields_ = [f_[0] for f_ in ci_.fields]
@@ -1051,6 +1058,7 @@ def eval_cli_main(ctx, found=True, flag_backend=None, flag_no_color=None, config
         given = dict(zip(main.positional_params(), (cobj, "workflow.py:gwf", flag_backend, verbose, flag_no_color)))
         dflt = click_defaults(ctx, main)
         extra = {p_: dflt[p_] for p_ in main.positional_params()[5:] if p_ in dflt}
+        extra.update(extra_options or {})
         interp.call(main, tuple(given.values()), extra)
     except Raised as exc:
         res["raised"] = exc.kind  # an outcome of the evaluated code, not a limitation of the evaluator
@@ -1116,6 +1124,66 @@ def cli_main_location_witness(ctx):
         diffs.append(f"no workflow file and the prompt declined: the callback {'ends with ' + str(res['raised']) if res['raised'] else 'continues'}, "
                      f"initialises {res['init']} and creates {res['mkdir']}; expected click.Abort with nothing created")
     return n, diffs, None
+
+
+def cli_overrides_witness(ctx):
+    """Every route by which TEXT from the command line becomes a configuration value coerces it as `gwf config set KEY VALUE` does (integers, yes/no/true/false):
+    a repeatable KEY=VALUE option of the `gwf` group (if there is one) is given the spellings a user types to switch something off or to give a number, and the
+    configuration the commands then see is compared with what `config set` stores for the same text.  No such option: nothing to compare (0 rows)."""
+    idx = ctx.index
+    main = idx.func("gwf.cli:main")
+    ci = idx.cls("gwf.conf:FileConfig")
+    diffs, n = [], 0
+    params = main.positional_params()
+    for d in main.node.decorator_list:
+        if not (isinstance(d, ast.Call) and idx.canon(d.func, main.module) == "click.option"):
+            continue
+        kw = {k.arg: k.value for k in d.keywords if k.arg}
+        names = [a.value for a in d.args if isinstance(a, ast.Constant) and isinstance(a.value, str)]
+        multiple = isinstance(kw.get("multiple"), ast.Constant) and kw["multiple"].value is True
+        metavar = kw["metavar"].value if isinstance(kw.get("metavar"), ast.Constant) else ""
+        if not (multiple and "=" in str(metavar)):
+            continue
+        bare = [x for x in names if not x.startswith("-")]
+        pname = (bare[0] if bare else max((x for x in names if x.startswith("--")), key=len)[2:]).replace("-", "_")
+        if pname not in params:
+            continue
+        texts = {"clean_logs": "false", "flag.no": "no", "flag.yes": "yes", "number": "12", "backend.slurm.log_mode": "merged", "zero": "0"}
+        # what `config set` stores for these texts
+        ref = make_instance(ctx, ci, "config", path=PROJ + "/.gwfconf.json", data=__import__("collections").ChainMap({}, {}))
+        ip = PureInterp(ctx)
+        want = {}
+        try:
+            for k_, v_ in texts.items():
+                ip.call(idx.method(ci, "__setitem__"), (k_, v_), {}, self_obj=ref)
+                want[k_] = ip.call(idx.method(ci, "get"), (k_,), {}, self_obj=ref)
+        except (Raised, Unsupported) as exc:
+            return n, diffs, f"config set reference: {exc}"
+        given = tuple(f"{k_}={v_}" for k_, v_ in texts.items())
+        res, err = eval_cli_main_with(ctx, {pname: given})
+        if err:
+            return n, diffs, err
+        n += 1
+        cfg = (res.get("context") or {}).get("config")
+        if res["raised"] or not isinstance(cfg, Obj):
+            diffs.append(f"`gwf {names[0]} {' '.join(given[:2])} ...` ends with {res['raised']}")
+            continue
+        got = {}
+        for k_ in texts:
+            try:
+                got[k_] = ip.call(idx.method(ci, "get"), (k_,), {}, self_obj=cfg)
+            except (Raised, Unsupported) as exc:
+                got[k_] = f"<{exc}>"
+        bad = {k_: (got[k_], want[k_]) for k_ in texts if got[k_] != want[k_] or type(got[k_]) is not type(want[k_])}
+        if bad:
+            diffs.append(f"`gwf {names[0]} KEY=VALUE`: the commands see {{key: (value, what `gwf config set` stores for the same text)}} = {bad}: text from this option is not coerced like "
+                         "`config set` coerces it, so `false`/`no`/`0` arrive as non-empty strings - which are true - and e.g. `clean_logs=false` does not switch log cleaning off")
+    return n, diffs, None
+
+
+def eval_cli_main_with(ctx, extra):
+    """eval_cli_main with further options of the group given explicitly."""
+    return eval_cli_main(ctx, extra_options=extra)
 
 
 class OffEnv(dict):
@@ -1888,6 +1956,14 @@ def eval_config_session(ctx):
     steps = []
 
     def invocation():
+        # the configuration object a command gets is the one the group callback (cli.main) builds from the file - whatever it layers on top of it
+        try:
+            res, err = eval_cli_main(ctx, load_hook=lambda path: interp.call(load, (PathTok(str(path)),), {}, self_obj=ci))
+            cfg = (res or {}).get("context", {}) and res["context"].get("config")
+            if err is None and not res["raised"] and isinstance(cfg, Obj):
+                return ctx_obj(ctx, config=cfg)
+        except (Raised, Unsupported):
+            pass
         cfg = interp.call(load, (PathTok(CFG),), {}, self_obj=ci)
         return ctx_obj(ctx, config=cfg)
 
